@@ -30,6 +30,55 @@ type simplifier struct {
 	// quoted holds the words that sit inside double quotes or a here-document body,
 	// like the default value in "${x:-"\$y"}": there a single quote is an ordinary character.
 	quoted map[*Word]bool
+	// keepDollar holds the $name operands of arithmetic expressions which also assign to name.
+	// The shell substitutes $name before it evaluates anything, so in "x++ - $x" the operand
+	// is the old value, while "x++ - x" reads the new one.
+	keepDollar map[*Word]bool
+}
+
+// markWritten records, for one whole arithmetic expression, the $name operands
+// whose variable is assigned to somewhere in the expression.
+func (s *simplifier) markWritten(x ArithmExpr) {
+	if x == nil {
+		return
+	}
+	written := map[string]bool{}
+	name := func(x ArithmExpr) string {
+		if w, _ := x.(*Word); w != nil {
+			return w.Lit()
+		}
+		return ""
+	}
+	Walk(x, func(n Node) bool {
+		switch n := n.(type) {
+		case *BinaryArithm:
+			switch n.Op {
+			case Assgn, AddAssgn, SubAssgn, MulAssgn, QuoAssgn, RemAssgn,
+				AndAssgn, OrAssgn, XorAssgn, ShlAssgn, ShrAssgn:
+				written[name(n.X)] = true
+			}
+		case *UnaryArithm:
+			if n.Op == Inc || n.Op == Dec {
+				written[name(n.X)] = true
+			}
+		}
+		return true
+	})
+	delete(written, "")
+	if len(written) == 0 {
+		return
+	}
+	Walk(x, func(n Node) bool {
+		if w, _ := n.(*Word); w != nil && len(w.Parts) == 1 {
+			if pe, _ := w.Parts[0].(*ParamExp); pe != nil && pe.Param != nil && written[pe.Param.Value] {
+				if s.keepDollar == nil {
+					s.keepDollar = make(map[*Word]bool)
+				}
+				s.keepDollar[w] = true
+			}
+		}
+		return true
+	})
 }
 
 // markQuoted records the words nested in a double-quoted context.
@@ -52,11 +101,17 @@ func (s *simplifier) markQuoted(n Node) {
 func (s *simplifier) visit(node Node) {
 	switch node := node.(type) {
 	case *Assign:
+		s.markWritten(node.Index)
 		node.Index = s.removeParensArithm(node.Index)
 		// Don't inline params, as x[i] and x[$i] mean
 		// different things when x is an associative
 		// array; the first means "i", the second "$i".
 	case *ParamExp:
+		s.markWritten(node.Index)
+		if node.Slice != nil {
+			s.markWritten(node.Slice.Offset)
+			s.markWritten(node.Slice.Length)
+		}
 		node.Index = s.removeParensArithm(node.Index)
 		// don't inline params - same as above.
 
@@ -73,10 +128,20 @@ func (s *simplifier) visit(node Node) {
 		if node.Hdoc != nil {
 			s.markQuoted(node.Hdoc)
 		}
+	case *LetClause:
+		for _, x := range node.Exprs {
+			s.markWritten(x)
+		}
+	case *CStyleLoop:
+		s.markWritten(node.Init)
+		s.markWritten(node.Cond)
+		s.markWritten(node.Post)
 	case *ArithmExp:
+		s.markWritten(node.X)
 		node.X = s.removeParensArithm(node.X)
 		node.X = s.inlineSimpleParams(node.X)
 	case *ArithmCmd:
+		s.markWritten(node.X)
 		node.X = s.removeParensArithm(node.X)
 		node.X = s.inlineSimpleParams(node.X)
 	case *ParenArithm:
@@ -190,6 +255,9 @@ func (s *simplifier) inlineSimpleParams(x ArithmExpr) ArithmExpr {
 	pe, _ := w.Parts[0].(*ParamExp)
 	if pe == nil || pe.Param == nil || !ValidName(pe.Param.Value) {
 		// Not a POSIX-like parameter expansion, or not a valid name without `$`, like $3.
+		return x
+	}
+	if s.keepDollar[w] {
 		return x
 	}
 	if !pe.simple() {
